@@ -165,6 +165,9 @@ func (brr *BalanceRR) Update(conf cluster_table_conf.SubClusterBackend) {
 	brr.Lock()
 	defer brr.Unlock()
 
+	// do weights or members of the schedulable backends change?
+	changed := false
+
 	// go through backendsOld, make update and delete
 	for index := 0; index < len(brr.backends); index++ {
 		backendRR := brr.backends[index]
@@ -173,12 +176,20 @@ func (brr *BalanceRR) Update(conf cluster_table_conf.SubClusterBackend) {
 		bkConf, ok := confMap[backendKey]
 		if ok && backendRR.MatchAddrPort(*bkConf.Addr, *bkConf.Port) {
 			// found existing backend
+			weightNew := *bkConf.Weight * 100
+			if backendRR.weight != weightNew && (backendRR.weight > 0 || weightNew > 0) &&
+				backendRR.backend.Avail() {
+				changed = true
+			}
 			backendRR.UpdateWeight(*bkConf.Weight)
 			backendsNew = append(backendsNew, backendRR)
 			delete(confMap, backendKey)
 		} else {
 			// tell healthcheck to stop
 			backendRR.Release()
+			if backendRR.weight > 0 && backendRR.backend.Avail() {
+				changed = true
+			}
 		}
 	}
 
@@ -190,6 +201,15 @@ func (brr *BalanceRR) Update(conf cluster_table_conf.SubClusterBackend) {
 		backend.SetRestart(true)
 		// add to backendsNew
 		backendsNew = append(backendsNew, backendRR)
+		if backendRR.weight > 0 {
+			changed = true
+		}
+	}
+
+	// credits accumulated under the old weights/members would skew the
+	// first rounds under the new ones: restart smooth round robin cleanly
+	if changed {
+		backendsNew.ResetWeight()
 	}
 
 	// point brr.backends to backendsNew
